@@ -22,7 +22,7 @@ for d in dirs:
   meta = json.load(open(mp))
   prev = meta.get('confirmed_by_coordinator') or {}
   hist = prev.pop('history', [])
-  if prev:
+  if prev and prev.get('check_exit_on_patched_tree') is not None:
     hist.append({k: prev.get(k) for k in ('repo_head', 'check_exit_on_patched_tree', 'detected', 'replays', 'tier')})
   head = os.popen('git -C %s rev-parse --short HEAD' % RT).read().strip()
   new = {
